@@ -86,7 +86,7 @@ fn gen_case(ctx: &Ctx, shapes: &[usize], idx: u64) -> Case {
         off,
         place: if rng.chance(1, 2) { Place::Tail } else { Place::Island },
         garbage: rng.next(),
-        api: if ctx.prop == "C15" { rng.below(3).min(1) as u8 } else { 0 },
+        api: if ctx.prop == "C15" || ctx.prop == "C20" { rng.below(3).min(1) as u8 } else { 0 },
         nclass,
     }
 }
@@ -178,7 +178,8 @@ pub fn run(ctx: &Ctx, rep: &mut Report) {
                 image = vd.bytes().to_vec();
             };
             match (is_default, case.api) {
-                (true, _) => (vt.default_in_place)(arena.slice_mut(), &mut on_view),
+                (true, 0) => (vt.default_in_place)(arena.slice_mut(), &mut on_view),
+                (true, _) => (vt.wrap_default)(arena.slice_mut(), 0, &mut on_view),
                 (false, 0) => Some((vt.new_in_place)(arena.slice_mut(), &case.v, case.style, &mut on_view)),
                 (false, k) => Some((vt.wrap_new)(arena.slice_mut(), &case.v, case.style, k - 1, &mut on_view)),
             }
